@@ -98,6 +98,12 @@ bool index_read(zckCtx *zck, char *data, size_t size, size_t max_length) {
 
         /* Read uncompressed entry digest, if any */
         if (zck->has_uncompressed_source) {
+            if(length + zck->index.digest_size > max_length) {
+                free(new->digest);
+                free(new);
+                set_fatal_error(zck, "Read past end of header");
+                return false;
+            }
             /* same size for digest as compressed */
             new->digest_uncompressed = zmalloc(zck->index.digest_size);
             if (!new->digest_uncompressed) {
@@ -136,6 +142,10 @@ bool index_read(zckCtx *zck, char *data, size_t size, size_t max_length) {
         new->zck = zck;
         new->valid = 0;
         new->number = count;
+        if(idx_loc + new->comp_length < idx_loc) {
+            set_fatal_error(zck, "Integer overflow when reading index");
+            return false;
+        }
         idx_loc += new->comp_length;
         count++;
         zck->index.length = idx_loc;
@@ -145,6 +155,13 @@ bool index_read(zckCtx *zck, char *data, size_t size, size_t max_length) {
         else
             zck->index.first = new;
         prev = new;
+    }
+    /* The declared chunk count must be the number of entries actually present,
+     * and there is always at least the dictionary entry */
+    if(count < 1 || (size_t)count != index_count) {
+        set_fatal_error(zck, "Index has %i entries, but header says %llu",
+                        count, (long long unsigned) index_count);
+        return false;
     }
     free(zck->index_string);
     zck->index_string = NULL;
